@@ -27,6 +27,7 @@ type lifeOp struct {
 	F    int    `json:"f,omitempty"`
 	Coll string `json:"coll,omitempty"`
 	Dump bool   `json:"dump,omitempty"`
+	ViaBucket bool `json:"via_bucket,omitempty"` // start: through Bucket.StartDCPFeed with no Scopes (the default collection's feed), whatever the handle has opened
 }
 
 type lifeInput struct {
@@ -160,7 +161,10 @@ func execLife(in lifeInput, scratch string) (Case, error) {
 					}
 					var ds sgbucket.DataStore
 					var e error
-					if exists {
+					if op.ViaBucket && op.Coll == "_default._default" {
+						// no collection object of the caller's is involved: the bucket looks its default collection up
+						exists, e, ds = true, nil, nil
+					} else if exists {
 						ds, e = h.NamedDataStore(dsName(op.Coll))
 						if e == nil {
 							dsCache[fmt.Sprintf("%d/%s", op.H, op.Coll)] = ds
@@ -184,7 +188,13 @@ func execLife(in lifeInput, scratch string) (Case, error) {
 							if in.Ckpt {
 								args.CheckpointPrefix = "cp"
 							}
-							e := ds.(*rosmar.Collection).StartDCPFeed(ctxBg, args, func(ev sgbucket.FeedEvent) bool {
+							starter := func(cb sgbucket.FeedEventCallbackFunc) error {
+								if ds == nil {
+									return h.StartDCPFeed(ctxBg, args, cb, nil)
+								}
+								return ds.(*rosmar.Collection).StartDCPFeed(ctxBg, args, cb, nil)
+							}
+							e := starter(func(ev sgbucket.FeedEvent) bool {
 								if (ev.Opcode == sgbucket.FeedOpMutation || ev.Opcode == sgbucket.FeedOpDeletion) && !strings.HasPrefix(string(ev.Key), "cp:") {
 									if ended(f) {
 										atomic.AddInt64(&f.late, 1)
@@ -195,7 +205,7 @@ func execLife(in lifeInput, scratch string) (Case, error) {
 									}
 								}
 								return true
-							}, nil)
+							})
 							if e == nil {
 								mu.Lock()
 								feeds = append(feeds, f)
@@ -390,7 +400,7 @@ func genLife(r *rand.Rand) lifeInput {
 			if r.Intn(6) == 0 {
 				sh = r.Intn(nh) // possibly a handle that has been closed: the start must fail and leave nothing behind
 			}
-			add(lifeOp{Kind: "start", F: nf, H: sh, Coll: cn, Dump: r.Intn(4) == 0})
+			add(lifeOp{Kind: "start", F: nf, H: sh, Coll: cn, Dump: r.Intn(4) == 0, ViaBucket: cn == "_default._default" && r.Intn(2) == 0})
 			feedColl[nf] = cn
 			nf++
 		case x < 11:
@@ -437,6 +447,12 @@ func genLife(r *rand.Rand) lifeInput {
 			}
 			add(lifeOp{Kind: "close", H: h})
 			open[h] = false
+			if r.Intn(3) == 0 {
+				// a feed of the default collection asked of the closed handle itself, which may never have opened it
+				add(lifeOp{Kind: "start", F: nf, H: h, Coll: "_default._default", Dump: r.Intn(4) == 0, ViaBucket: true})
+				feedColl[nf] = "_default._default"
+				nf++
+			}
 		case x == 19 && i > 4:
 			if r.Intn(3) == 0 {
 				h = r.Intn(nh) // possibly through a handle that was closed before
